@@ -236,7 +236,7 @@ def rule_scan(ctx):
             ctx.ok("SEC.SCAN", site + "#counter", fi, scan, "the line counter is the enumerate() index of the file iteration")
         else:
             ctx.undecided("SEC.SCAN", site + "#counter", fi, scan, "the line counter is produced by `%s`" % unparse(it))
-        ctx.floor("SEC.SCAN", 3)
+        ctx.floor("SEC.SCAN", 1)
         return
     if ok:
         h = head[0]
@@ -268,7 +268,7 @@ def rule_scan(ctx):
                 ok, msg = False, "the line counter advances by %s per line" % step
     ctx.check(ok, "SEC.SCAN", site + "#counter", fi, scan, "the line counter advances by exactly one for every line read",
               msg or "no increment of the line counter found in the scan loop")
-    ctx.floor("SEC.SCAN", 3)
+    ctx.floor("SEC.SCAN", 1)
 
 
 def rule_convention(ctx):
@@ -1586,7 +1586,14 @@ def rule_every_section(ctx):
     loop = sp["loop"]
     cfg = build_cfg(p, fr)
     cd = ControlDependence(cfg)
-    lines = {sp["first"], sp["last"], sp["pos"]}
+    lines = {sp["first"], sp["last"], sp["pos"], sp["title"]}
+    # names computed from the title or the line numbers inside the loop (letter = title[1:2].upper() ...)
+    for _ in range(3):
+        for a_ in ast.walk(loop):
+            if isinstance(a_, ast.Assign) and len(a_.targets) == 1 and isinstance(a_.targets[0], ast.Name) \
+                    and any(isinstance(x, ast.Name) and x.id in lines for x in ast.walk(a_.value)) \
+                    and not any(isinstance(c, ast.Call) and "determine_section_type" in ast.unparse(c.func) for c in ast.walk(a_.value)):
+                lines.add(a_.targets[0].id)
     site = READ + "#every-section"
     problems = []
     for node in cfg.nodes:
@@ -1600,7 +1607,7 @@ def rule_every_section(ctx):
             if cfg.nodes[tn].kind == "test" and t is not None and in_block(t, loop.body):
                 used = {x.id for x in ast.walk(t) if isinstance(x, ast.Name)} & lines
                 if used:
-                    problems.append((a, "`%s` under `%s` skips a section depending on its line numbers (%s): the section never reaches "
+                    problems.append((a, "`%s` under `%s` skips a section depending on its title or line numbers (%s): the section never reaches "
                                         "the routing, so it is missing from the result (or keeps default items that are not in the file)"
                                      % (type(a).__name__.lower(), unparse(t), sorted(used))))
     if problems:
@@ -1609,3 +1616,78 @@ def rule_every_section(ctx):
     else:
         ctx.ok("SEC.EVERY-SECTION", site, fr, loop, "no section found by the scan is skipped on account of its position or length")
     ctx.floor("SEC.EVERY-SECTION", 1)
+
+
+def rule_other_verbatim(ctx):
+    """SEC.OTHER-VERBATIM: the free-text ~Other section keeps every line between its title and the next title: in the loop
+    that collects it, whether a line is appended depends on title tests and the section's line numbers only"""
+    p = ctx.p
+    host_fi, lp, app = None, None, None
+    for fi in read_family(p):
+        for l_ in [x for x in walk_shallow(fi.node) if isinstance(x, ast.For)]:
+            has_title = any(isinstance(c, ast.Call) and isinstance(c.func, ast.Attribute) and c.func.attr == "startswith" and c.args
+                            and isinstance(c.args[0], ast.Constant) and c.args[0].value == "~" for c in ast.walk(l_))
+            apps = [c for c in ast.walk(l_) if isinstance(c, ast.Call) and isinstance(c.func, ast.Attribute) and c.func.attr == "append"
+                    and c.args and any(isinstance(x, ast.Name) for x in ast.walk(c.args[0]))]
+            parses = any(isinstance(c, ast.Call) and "parse_header_items_section" in ast.unparse(c.func) for c in ast.walk(l_))
+            if has_title and apps and not parses and isinstance(l_.iter, ast.Name):
+                host_fi, lp, app = fi, l_, apps[0]
+    if lp is None:
+        ctx.undecided("SEC.OTHER-VERBATIM", READ + "#other-loop", p.func(READ), p.func(READ).node, "no free-text collection loop found")
+        return
+    cfg = build_cfg(p, host_fi)
+    cd = ControlDependence(cfg)
+    extra = []
+    for nid in cfg.node_of_expr(app):
+        for (tn, lab) in cd.transitive(nid):
+            t = cfg.nodes[tn].ast
+            if cfg.nodes[tn].kind != "test" or t is None or not in_block(t, lp.body):
+                continue
+            txt = ast.unparse(t)
+            if "startswith('~')" in txt:
+                continue
+            if any(isinstance(c, ast.Compare) and ("line_no" in ast.unparse(c) or "last" in ast.unparse(c)) for c in ast.walk(t)) and "[0]" not in txt:
+                continue
+            extra.append(txt)
+    ctx.check(not extra, "SEC.OTHER-VERBATIM", READ + "#other-loop", host_fi, app,
+              "every line of ~Other up to the next title is kept",
+              "whether a line of ~Other is kept also depends on %s: lines that write() emits verbatim do not come back" % sorted(set(extra)))
+    ctx.floor("SEC.OTHER-VERBATIM", 1)
+
+
+def rule_line_model(ctx):
+    """SEC.LINE-MODEL: one notion of "line" everywhere: the section scan, the header loop, the sniffer, the reference engine and
+    genfromtxt all take lines from the file object (readline / iteration).  str.splitlines() also breaks at form feed, vertical
+    tab, FS/GS/RS, NEL and U+2028/9 and a lone CR, so text read from the handle is never split with splitlines()/split("\\n")."""
+    p = ctx.p
+    n = 0
+    for q, fi in sorted(p.functions.items()):
+        if fi.module.name not in ("reader", "las") or isinstance(fi.node, ast.Lambda):
+            continue
+        content_names = set()
+        for a in walk_shallow(fi.node):
+            if isinstance(a, ast.Assign) and isinstance(a.value, ast.Call) and isinstance(a.value.func, ast.Attribute) \
+                    and a.value.func.attr in ("read", "getvalue"):
+                for t in a.targets:
+                    if isinstance(t, ast.Name):
+                        content_names.add(t.id)
+        hits = []
+        for c in walk_shallow(fi.node):
+            if isinstance(c, ast.Call) and isinstance(c.func, ast.Attribute) and (
+                    c.func.attr == "splitlines" or (c.func.attr == "split" and c.args and isinstance(c.args[0], ast.Constant)
+                                                    and c.args[0].value in ("\n", "\r\n"))):
+                recv = c.func.value
+                from_handle = (isinstance(recv, ast.Call) and isinstance(recv.func, ast.Attribute) and recv.func.attr in ("read", "getvalue")) or (
+                    isinstance(recv, ast.Name) and recv.id in content_names)
+                if from_handle:
+                    hits.append(c)
+        if hits or any(isinstance(c, ast.Call) and isinstance(c.func, ast.Attribute) and c.func.attr in ("readline", "tell") for c in walk_shallow(fi.node)):
+            n += 1
+            site = "%s#line-model" % q
+            if hits:
+                ctx.bad("SEC.LINE-MODEL", site, fi, hits[0], "`%s` splits text read from the handle with str.splitlines()/split: it also breaks "
+                        "at form feed, \\\\x0b, \\\\x1c-\\\\x1e, \\\\x85, U+2028/9 and a lone CR, which file iteration and genfromtxt do not - the "
+                        "line numbers of the sections drift from the lines the readers count" % unparse(hits[0])[:60])
+            else:
+                ctx.ok("SEC.LINE-MODEL", site, fi, fi.node, "lines come from the handle (readline / iteration) only")
+    ctx.floor("SEC.LINE-MODEL", 1)
